@@ -11,8 +11,10 @@ known by construction from vlib/ref_h4.py, which never runs a parser):
              Event/Acl/Sco PacketSplitter      (USB endpoints; same-type, no type byte)
            oracle: after every chunk, #emitted == #packets wholly inside the fed prefix
            (none early, none late); final list == built list; all framers agree.
-  exhaust  every sequence of 1-2 (3) packets over 5 types x tiny bodies, every 1-, 2- and
-           3-chunk split and 1-byte chunks, all framers.
+  exhaust  every sequence of 1-3 packets over 5 types x bodies {0,1,2}, every split into
+           <= 3 chunks (3-packet sequences in quick: <= 2) and 1-byte chunks, all framers.
+           Pull readers additionally get streams that end inside a packet (must report,
+           never hand out a packet that was not sent).
   invalid  an unrecognised type byte at every packet boundary (alone / glued to the tail
            of the previous chunk / glued in front of more data / through
            StreamPacketSource.data_received): the push parser must report it, deliver
@@ -21,8 +23,9 @@ known by construction from vlib/ref_h4.py, which never runs a parser):
            streams chunked independently and interleaved; sink must get typed H4 packets,
            per-endpoint order exact.
   server   REAL loopback sockets: tcp_server, unix server (mkdtemp), ws_server.  Client 1
-           is cut at every byte position of a short stream, client 2 sends a known stream;
-           sink must equal complete(client-1 prefix) + client-2 packets.
+           is cut at every byte position of a short stream (half-close / close / reset),
+           client 2 sends a known stream; sink must equal complete(client-1 prefix) +
+           client-2 packets. Also chains of three clients.
 """
 from __future__ import annotations
 
